@@ -12,7 +12,7 @@ import re
 
 from . import common
 
-PROOFS = ["proofs/AntsStepsProofs.v", "models/AntsSteps.v"]
+PROOFS = ["proofs/AntsStepsProofs.v", "models/AntsSteps.v", "proofs/RaceAntsProofs.v", "models/RaceAnts.v"]
 FT_ENV = dict(os.environ, GOMAXPROCS="2")
 
 # timeouts (ns) of the Send ops of a case, by global Send index: pairwise distinct, no small sum of
@@ -21,6 +21,11 @@ TS = [1000000, 2300000, 3700000, 5300000, 7100000, 11900000, 16100000, 21300000]
 
 SITE_SEND_LEN, SITE_SEND_ENQ, SITE_DISP_RECV, SITE_INNER_ENQ, SITE_INNER_RECV = 1, 2, 3, 4, 5
 SITE_GET_WAIT = 16
+
+
+def corpus_lines():
+    from . import pure
+    return [l for l in pure.corpus_cases("C07") if l.startswith("c07s ")]
 
 
 def hooks_present():
